@@ -491,7 +491,7 @@ def _gen_spec_once(rng, pf):
             continue
         if p["format"] in ("probability", "rate", "number", "proportion", "duration") and not negative_ok:
             p["min"] = 0.0 if rng.random() < 0.8 else None
-        if rng.random() < pf["p_limits"] and p["format"] != "duration":
+        if rng.random() < pf["p_limits"] * (0.3 if p["name"].startswith("agg") else 1.0) and p["format"] != "duration":
             if vclass == "binding_limits" or rng.random() < 0.3:
                 hi = {"number": 30.0, "proportion": 0.8}.get(p["format"], 0.6)
                 p["max"] = _f(rng.uniform(0.2, 1.0) * hi)
